@@ -83,7 +83,8 @@ static RegisterProp p_C09({"C09",
                            "random: any catalogue operation that takes matrices (multiplication routes, echelon forms, PLE/PLUQ, TRSM, "
                            "inversion, solve, kernel, add/transpose/copy/submatrix/concat/stack/extract, row/column operations, "
                            "permutations, observers) with each matrix operand independently owned or a window (0-2 extra rows above/below, "
-                           "0-3 words to the left so that odd word offsets occur, 0-2 words + 0-63 slack bits to the right) into a parent "
+                           "0-3 words to the left so that odd word offsets occur, 0-2 words + 0-63 slack bits to the right; a quarter of them "
+                           "nested: a window of a window whose offsets accumulate) into a parent "
                            "filled with junk / ones / zeros; oracle = three-way: model result, the same call on standalone owned copies "
                            "(equal output digest), every bit of every parent outside the view identical to its snapshot, read-only "
                            "operands bit-identical; non-trivial iff >= 1 operand is a window at an odd word offset or with excess bits "
